@@ -7,10 +7,10 @@ PID = "C14"
 MANIFEST_ENTRY = {
  "level_claimed": {
   "category": "proof",
-  "text": "Theorems in coq/Properties/C14.v about an executable model of data/src/data/parsing.rs, for all inputs by induction: every radix literal 0R_digits (R in 2..36, any valid digits, any placement of `_` separators) parses to the value of the digits in radix R when it fits an i32 and is rejected otherwise (R<>10); every non-negative i32 has a spelling in every radix, and a decimal spelling with separators, that parses back to it; a decimal fraction digits.digits is converted by the IEEE-754 round-to-nearest-even of its decimal value (via Flocq, for every mantissa and exponent; partial: the text-level theorem covers digits.digits without separators/exponent); every char-list literal made of raw characters, backslash escapes and \\u{hex} escapes parses to exactly the characters those items denote, for every quote count and every (multi-byte) character, and every string has such a spelling; the same for byte lists in text form and for byte vectors in numeric form; the CharList/ByteList headers written by both data implementations make every stored character readable at its index and a symbol keeps its name. The model (including its own str::parse::<f64>) is tied to the Rust code on every run by running both on the same literals (direct calls of the parsing functions and one-literal programs lexed, parsed, built and executed on SimpleGarnishData and BasicGarnishData, read back through the public getters), and an independent Python oracle (spell -> evaluate -> compare) checks the implementation directly.",
+  "text": "Theorems in coq/Properties/C14.v about an executable model of data/src/data/parsing.rs, for all inputs by induction: every radix literal 0R_digits (R in 2..36, any valid digits, any placement of `_` separators) parses to the value of the digits in radix R when it fits an i32 and is rejected otherwise (R<>10); every non-negative i32 has a spelling in every radix, and a decimal spelling with separators, that parses back to it; a decimal fraction digits.digits is converted by the IEEE-754 round-to-nearest-even of its decimal value (via Flocq, for every mantissa and exponent; partial: the text-level theorem covers digits.digits without separators/exponent), and every finite positive binary64 has a decimal-fraction spelling that parses back to exactly it; every char-list literal made of raw characters, backslash escapes and \\u{hex} escapes parses to exactly the characters those items denote, for every quote count and every (multi-byte) character, and every string has such a spelling; the same for byte lists in text form and for byte vectors in numeric form; the CharList/ByteList headers written by both data implementations make every stored character readable at its index and a symbol keeps its name. The model (including its own str::parse::<f64>) is tied to the Rust code on every run by running both on the same literals (direct calls of the parsing functions and one-literal programs lexed, parsed, built and executed on SimpleGarnishData and BasicGarnishData, read back through the public getters), and an independent Python oracle (spell -> evaluate -> compare) checks the implementation directly.",
   "design_ref": "DESIGN.md section 8 C14"
  },
- "level_note": "Trusted: Coq kernel; Flocq's four standard-library axioms (float theorems only; the integer, text and byte theorems are closed under the global context); extraction (ExtrOcamlBasic only); the Rust harness and the Python oracle. Partial: the lexer is not part of the model (C13) - that a spelling lexes as ONE literal token is checked on the implementation only; `every finite float has a spelling` is checked on the implementation (Rust's shortest `{}` form, Python float() as oracle) and not a theorem; char::is_numeric on non-ASCII characters and symbol_value (SipHash) are oracles. Seven defects were found and fixed in /repo (known_findings.json, fixed).",
+ "level_note": "Trusted: Coq kernel; Flocq's four standard-library axioms (float theorems only; the integer, text and byte theorems are closed under the global context); extraction (ExtrOcamlBasic only); the Rust harness and the Python oracle. Partial: the lexer is not part of the model (C13) - that a spelling lexes as ONE literal token is checked on the implementation only; the spelling in the float round-trip theorem is the exact decimal expansion, not Rust's shortest `{}` form - that the shortest form evaluates back is checked on the implementation (Python float() as oracle); char::is_numeric on non-ASCII characters and symbol_value (SipHash) are oracles. Seven defects were found and fixed in /repo (known_findings.json, fixed).",
  "technique": "Coq proof (induction over digit strings / literal items; Flocq for decimal->binary64) over an executable model + differential correspondence with the Rust implementation"
 }
 I32_MAX = 2**31 - 1
@@ -332,6 +332,18 @@ def float_cases(tier, seed):
     return fl
 
 
+def spell_dyadic(x):
+    """the decimal-fraction spelling of Spec/LitDenote.v spell_dyadic for the canonical (mantissa, exponent) of x > 0"""
+    bits = struct.unpack("<Q", struct.pack("<d", x))[0]
+    E, F = (bits >> 52) & 0x7ff, bits & ((1 << 52) - 1)
+    m, e = ((1 << 52) + F, E - 1075) if E else (F, -1074)
+    if e >= 0:
+        n, k = m * 2**e * 10, 1
+    else:
+        n, k = m * 5**(-e), -e
+    return "%d.%s" % (n // 10**k, str(n % 10**k).rjust(k, "0"))
+
+
 def float_spelling_cases(fl, sp, cases):
     """the shortest decimal form (`{}`) is the spelling; with `.0` appended when it has no fraction it must
     also keep the Float type; the `{:?}` form (exponent notation for large/small values) is an extra literal
@@ -343,6 +355,8 @@ def float_spelling_cases(fl, sp, cases):
             forms.append((disp + ".0", "spelling"))
         if dbg != disp and "-" not in dbg:
             forms.append((dbg, "literal"))
+        if x > 0 and (len(cases) % 5 == 0 or x in (5e-324, 1.7976931348623157e308, 0.1, 1.0)):
+            forms.append((spell_dyadic(x), "dyad"))      # the (long, exact) spelling the Coq theorem uses
         for text, clause in forms:
             try:
                 back = float(text)
@@ -351,7 +365,10 @@ def float_spelling_cases(fl, sp, cases):
             if back != x:
                 bad.append("Rust spelling %r of %r does not denote it (Python float())" % (text, x))
                 continue
-            cases.append(("N %s flt:%s" % (cps(text), f_bits(x)), clause, expected_decimal_text(text)))
+            if clause == "dyad":
+                cases.append(("N %s dyad:%s" % (cps(text), f_bits(x)), "spelling", exp_num_float(x)))
+            else:
+                cases.append(("N %s flt:%s" % (cps(text), f_bits(x)), clause, expected_decimal_text(text)))
     return bad
 
 
